@@ -415,7 +415,7 @@ theorem C01_library_partial (q : Quirks) (ρ : Env) (n : Nat) (l r : List BExp)
 
 /-! ## from expressions to programs: the straight-line fragment
 
-`Sem.straightLine p` (decidable, `QV/Proofs/Front9.lean`): arguments of type `bool` / `Qint[w]`
+`Sem.straightLine p` (decidable, `QV/Model/Frag.lean`; proofs in `QV/Proofs/Front9.lean`): arguments of type `bool` / `Qint[w]`
 (`w ≠ 1`) with dot-free names other than `_ret`; return type `bool` / `Qint[w]`; every statement an
 assignment `t = e` (`t` dot-free, not `_ret`, `e` in `Sem.inFrag`, `e` does not read `t`), a
 `return e` (`e` in `Sem.inFrag`), or an expression statement.  Augmented assignments and
@@ -564,7 +564,7 @@ theorem C01_statement_straightline (p : Prog) (consts : List (Bool × Bool))
 
 `ASTRewriter.visit_If` builds `d = b if _iftargN else d` (if branch), `d = d if _iftargN else b` (else
 branch) and nests them for `elif` / an `if` in an else branch.  Such an assignment *reads its own target*:
-`Sem.straightLine` excludes it.  `Sem.guardedLine` (decidable, `QV/Proofs/Front11.lean`) admits every
+`Sem.straightLine` excludes it.  `Sem.guardedLine` (decidable, `QV/Model/Frag.lean`) accepts every
 right-hand side `Sem.guardedRhs t e`: a tree of if-expressions whose tests are variables other than `t`
 and whose leaves are `t` itself or fragment expressions that do not read `t` (every expression that does
 not read `t` is such a tree: `guardedLine_of_straightLine`). -/
